@@ -432,6 +432,18 @@ func Harness_C15_ending_survives_a_failed_write() {
 // drops the stuck session, which ends the call - once: one finalizing message, no call left, and the message
 // that was being delivered keeps its own number.
 func Harness_C15_stuck_party_is_dropped_once() {
+	// natively Go visits the attached sessions in random order: the replay repeats the scenario
+	n := 1
+	if !verifIsSymbolicEngine() {
+		n = 64
+	}
+	for i := 0; i < n; i++ {
+		verifReplayPos = 0
+		harnessC15StuckParty()
+	}
+}
+
+func harnessC15StuckParty() {
 	w := verifCallSetup()
 	t := w.t
 	verifAssume(w.state != 0 && globals.iceServers != nil)
@@ -474,6 +486,21 @@ func Harness_C15_stuck_party_is_dropped_once() {
 	}
 	verifAssert(t.lastID == oldLast+len(rows), "topic-counter-matches-the-stored-rows")
 	verifAssert(!verifTimerActive(t.callEstablishmentTimer), "nothing-times-a-finished-call")
+	// every other attached session gets each message once, in increasing order of numbers
+	for i, s := range w.sess {
+		if s == ss || i == 4 {
+			continue
+		}
+		last, copies := 0, 0
+		for _, m := range verifDrainSend(s) {
+			if m != nil && m.Data != nil {
+				verifAssert(m.Data.SeqId > last, "copies-arrive-in-increasing-order-of-numbers")
+				last = m.Data.SeqId
+				copies++
+			}
+		}
+		verifAssert(copies == 2, "attached-reader-gets-exactly-one-copy-of-each")
+	}
 	verifReach("end")
 }
 
